@@ -32,6 +32,21 @@ def armed_sites():
     return _ARMED
 
 
+# Reports that point AT something in the changed code (a memo keyed on too little, an unordered source consumed in order, a clamp, a swapped operand ...)
+# rather than at the absence of what the rule expected.  Whatever the function looks like, these stand: they are exempt from the armed-site policy.
+POSITIVE_RULES = {"R08a", "R08g", "R08j"}
+POSITIVE_CONSTRUCTS = (
+    "keyed without", "stops folded by", "stops filtered", "paint rebound before writing", "counter-transform shortcut without child_transform",
+    "counter-transform order reversed", "transform from a fallback, not affine_between", "visited-set", "value clamped to the field limit",
+    "paints filtered by kind", "palette normalisation depends on", "an index is returned before the foreground test", "gradient adjusted after mapping",
+    "value coerced to an integer", "master UFO modified before", "rounding_ndigits passed", "competing pattern", "ensureDecompiled instead of reload",
+    "viewBox side rounded before the ratio", "equal layers de-duplicated", "ownership of the reused path by name prefix", "takewhile drops",
+    "transform composition order reversed", "prefix decided before the hash step", "permuted by the inverse permutation",
+    "lookup after the glyph list was overwritten", "hoisted out of the per-master loop", "paired by zip of two sort orders", ": reorder_glyphs(..., ",
+    "_pop_flag(file ", "rebound after the fixed_safe test",
+)
+
+
 def _frame_key(f) -> str:
     import linecache
     import zlib
@@ -119,7 +134,8 @@ class RuleResult:
             caller = caller.f_back
         skey = _frame_key(caller)
         armed = armed_sites()
-        if not via_shape and armed is not False and isinstance(fi, FuncInfo) and skey not in armed:
+        positive = self.rule in POSITIVE_RULES or any(p_ in cons for p_ in POSITIVE_CONSTRUCTS)
+        if not via_shape and not positive and armed is not False and isinstance(fi, FuncInfo) and skey not in armed:
             d = CURRENT_DRIFT.get(func) if func in CURRENT_DRIFT else None
             if (d is None or d > SHAPE_DRIFT_MAX) and func not in CURRENT_DELETION_ONLY:
                 # the function was restructured (or is new) and this report has never been seen to survive a restructuring: undecided, like bad_shape
